@@ -131,8 +131,8 @@ def shrink(program: dict, fails, *, budget_s=60.0, keep=None) -> dict:
         for st in list(best["stmts"]):
             if time.time() > t_end:
                 break
-            if st["op"] in ("source",) or st["id"] in (keep or ()):
-                continue
+            if st["op"] in ("source", "alias") or st["id"] in (keep or ()):
+                continue        # removing an alias would turn valid joins/unions into same-origin ones
             if st not in best["stmts"]:
                 continue
             c = copy.deepcopy(best)
@@ -187,7 +187,9 @@ def shrink(program: dict, fails, *, budget_s=60.0, keep=None) -> dict:
                     e = _get(cur, path)
                 except (KeyError, IndexError, TypeError):
                     continue
-                for rep in _subexprs(e) + [{"lit": 0}, {"lit": True}]:
+                in_key_position = any(k in ("by", "on", "partition_by", "arrange") for k in path)
+                is_lit = isinstance(e, dict) and "lit" in e
+                for rep in _subexprs(e) + ([] if (in_key_position or is_lit) else [{"lit": 0}, {"lit": True}]):
                     if rep == e:
                         continue
                     c = copy.deepcopy(best)
